@@ -119,10 +119,59 @@ type VerifConfig struct {
 
 // VerifState is an internalState plus its channel states, none of whose Run loops is started.
 type VerifState struct {
-	s     *internalState
-	ctx   context.Context
-	chans []int64
-	wg    *errgroup.Group
+	s      *internalState
+	ctx    context.Context // cancelled by Close
+	cancel context.CancelFunc
+	chans  []int64
+	wg     *errgroup.Group
+}
+
+type verifOriginKey struct{}
+
+// VerifOrigin tells an API/handler/storage fake which loop the call comes from: "main" for
+// calls made (transitively) by a main-loop step, "chan" for calls made by a channel-worker step
+// of the harness, "" otherwise. A channel worker that internalState.handleChannel starts on its
+// own for a newly seen channel (s.wg.Go(state.Run)) inherits the context of the main-loop step,
+// so its channel-subscribe getChannelDifference arrives with origin "main": the fake server
+// parks that call until Close, and the harness drives the new channelState through the same
+// step functions as the tracked ones (after Adopt).
+func VerifOrigin(ctx context.Context) string {
+	o, _ := ctx.Value(verifOriginKey{}).(string)
+	return o
+}
+
+func (v *VerifState) mainCtx() context.Context {
+	return context.WithValue(v.ctx, verifOriginKey{}, "main")
+}
+
+func (v *VerifState) chanCtx() context.Context {
+	return context.WithValue(v.ctx, verifOriginKey{}, "chan")
+}
+
+// Close cancels the engine's context and waits for the channel workers the engine started on its
+// own (they are parked in their first API call by the fake server) to return.
+func (v *VerifState) Close() {
+	v.cancel()
+	_ = v.wg.Wait()
+}
+
+// Adopt registers the channel states the engine created on its own since the last call and
+// returns their ids (sorted). Must only be called once their workers are parked.
+func (v *VerifState) Adopt() []int64 {
+	known := map[int64]bool{}
+	for _, c := range v.chans {
+		known[c] = true
+	}
+	var fresh []int64
+	for id := range v.s.channels {
+		if !known[id] {
+			fresh = append(fresh, id)
+		}
+	}
+	sort.Slice(fresh, func(i, j int) bool { return fresh[i] < fresh[j] })
+	v.chans = append(v.chans, fresh...)
+	sort.Slice(v.chans, func(i, j int) bool { return v.chans[i] < v.chans[j] })
+	return fresh
 }
 
 // VerifNewState performs the set-up part of Manager.Run with the real Manager.loadState /
@@ -132,7 +181,7 @@ type VerifState struct {
 // internalState.Run and channelState.Run perform first are separate steps (MainDiff,
 // ChanSubscribe).
 func VerifNewState(cfg VerifConfig) (*VerifState, error) {
-	ctx := context.Background()
+	ctx, cancel := context.WithCancel(context.Background())
 	m := New(Config{
 		Handler:          cfg.Handler,
 		Storage:          cfg.Storage,
@@ -144,10 +193,12 @@ func VerifNewState(cfg VerifConfig) (*VerifState, error) {
 	})
 	state, err := m.loadState(ctx, cfg.API, cfg.SelfID, false)
 	if err != nil {
+		cancel()
 		return nil, err
 	}
 	channels, err := m.loadChannels(ctx, cfg.SelfID)
 	if err != nil {
+		cancel()
 		return nil, err
 	}
 	diffLim := diffLimitUser
@@ -172,7 +223,7 @@ func VerifNewState(cfg VerifConfig) (*VerifState, error) {
 		WorkGroup:             wg,
 		ChannelDiffSem:        m.chDiffSem,
 	})
-	v := &VerifState{s: s, ctx: ctx, wg: wg}
+	v := &VerifState{s: s, ctx: ctx, cancel: cancel, wg: wg}
 	for id := range channels {
 		v.chans = append(v.chans, id)
 	}
@@ -189,7 +240,7 @@ func (v *VerifState) Channels() []int64 { return v.chans }
 
 // MainHandle is the body of the externalQueue arm of internalState.Run for one pushed update.
 func (v *VerifState) MainHandle(u tg.UpdatesClass) error {
-	return v.s.handleUpdates(trace.ContextWithSpanContext(v.ctx, trace.SpanContext{}), u)
+	return v.s.handleUpdates(trace.ContextWithSpanContext(v.mainCtx(), trace.SpanContext{}), u)
 }
 
 // MainInternalLen is the number of updates queued by channel workers for the main loop.
@@ -199,14 +250,14 @@ func (v *VerifState) MainInternalLen() int { return len(v.s.internalQueue) }
 func (v *VerifState) MainStepInternal() (bool, error) {
 	select {
 	case u := <-v.s.internalQueue:
-		return true, v.s.handleUpdates(trace.ContextWithSpanContext(v.ctx, u.span), u.update)
+		return true, v.s.handleUpdates(trace.ContextWithSpanContext(v.mainCtx(), u.span), u.update)
 	default:
 		return false, nil
 	}
 }
 
 // MainDiff is what every timer arm (and the start-up) of internalState.Run does.
-func (v *VerifState) MainDiff(reason string) { v.s.getDifferenceLogger(v.ctx, reason) }
+func (v *VerifState) MainDiff(reason string) { v.s.getDifferenceLogger(v.mainCtx(), reason) }
 
 // ChanLen is the number of updates queued for the channel worker.
 func (v *VerifState) ChanLen(id int64) int { return len(v.s.channels[id].updates) }
@@ -216,7 +267,7 @@ func (v *VerifState) ChanStep(id int64) (bool, error) {
 	s := v.s.channels[id]
 	select {
 	case u := <-s.updates:
-		ctx := trace.ContextWithSpanContext(v.ctx, u.span)
+		ctx := trace.ContextWithSpanContext(v.chanCtx(), u.span)
 		handle := s.handleUpdate
 		if u.affected {
 			handle = func(ctx context.Context, _ tg.UpdateClass, _ entities) error {
@@ -246,27 +297,46 @@ func (v *VerifState) ChanHeadIsTooLong(id int64) bool {
 	return res
 }
 
+// ChanHold takes the queued updates of a channel worker out of its queue and returns a function
+// that puts them back in the same order. Used around the subscribe difference of a channel state
+// the engine created itself: the real worker runs that difference while the update that made the
+// engine create it is already queued, and channelState.sendOut may either keep or drop queued
+// updates (random select); holding them is the schedule in which it keeps them.
+func (v *VerifState) ChanHold(id int64) (restore func()) {
+	s := v.s.channels[id]
+	var held []channelUpdate
+	for n := len(s.updates); n > 0; n-- {
+		held = append(held, <-s.updates)
+	}
+	return func() {
+		for _, u := range held {
+			s.updates <- u
+		}
+	}
+}
+
 // ChanSubscribe is the first statement of channelState.Run.
 func (v *VerifState) ChanSubscribe(id int64) error {
-	return v.s.channels[id].getDifference(v.ctx, "channel-subscribe")
+	return v.s.channels[id].getDifference(v.chanCtx(), "channel-subscribe")
 }
 
 // ChanDiff is the gap-timeout arm of channelState.Run.
 func (v *VerifState) ChanDiff(id int64) {
-	v.s.channels[id].getDifferenceLogger(v.ctx, "channel-pts-gap-timeout")
+	v.s.channels[id].getDifferenceLogger(v.chanCtx(), "channel-pts-gap-timeout")
 }
 
 // ChanIdle is the idle-timeout arm of channelState.Run.
 func (v *VerifState) ChanIdle(id int64) {
 	s := v.s.channels[id]
 	s.resetIdleTimer()
-	s.getDifferenceLogger(v.ctx, "channel-idle-timeout")
+	s.getDifferenceLogger(v.chanCtx(), "channel-idle-timeout")
 }
 
 // VerifDump is the state of the whole engine.
 type VerifDump struct {
 	Pts, Qts, Seq VerifBoxDump
 	Date          int
+	ChanIDs       []int64        // = Channels()
 	Chans         []VerifBoxDump // in Channels() order
 	ChanQueue     [][]int        // ids of queued updates per channel worker
 	Internal      [][]int        // ids of the updates of each queued internal batch
@@ -280,6 +350,8 @@ func (v *VerifState) Dump(id func(any) int) VerifDump {
 		Qts:  dumpBox(v.s.qts, id),
 		Seq:  dumpBox(v.s.seq, id),
 		Date: v.s.date,
+
+		ChanIDs: append([]int64(nil), v.chans...),
 	}
 	for _, c := range v.chans {
 		s := v.s.channels[c]
